@@ -95,7 +95,7 @@ func checkC02(c *gramCase, b *gram.Built, r *vstat.Run) outcome {
 
 func TestC02(t *testing.T) {
 	runProp(t, "C02", c02Rule, func(t *rapid.T, r *vstat.Run) {
-		o := gram.GenOpts{MaxProds: 5, MaxDepth: 3, TrapPercent: 70, PosStyles: false}
+		o := gram.GenOpts{MaxProds: 5, MaxDepth: 3, TrapPercent: 70, PosStyles: false, Profiles: true}
 		g := gram.GenGrammar(t, o)
 		// bias the lookahead upwards: an attempt must be abandonable for a leak to show
 		g.Lookahead = rapid.SampledFrom([]int{1, 2, 3, 5, 5, 99999, 99999, -1}).Draw(t, "k2")
@@ -223,7 +223,7 @@ func checkC10(c *gramCase, b *gram.Built, r *vstat.Run) outcome {
 func TestC10(t *testing.T) {
 	runProp(t, "C10", c10Rule, func(t *rapid.T, r *vstat.Run) {
 		named := rapid.IntRange(0, 99).Draw(t, "named") < 15
-		o := gram.GenOpts{MaxProds: 4, MaxDepth: 4, TrapPercent: 20, NameElided: named}
+		o := gram.GenOpts{MaxProds: 4, MaxDepth: 4, TrapPercent: 20, NameElided: named, Profiles: true}
 		g := gram.GenGrammar(t, o)
 		b, msg := buildGrammar(g)
 		if msg != "" {
@@ -249,7 +249,7 @@ func TestC10(t *testing.T) {
 			}
 			c.Input2 = gram.Render(t, g, toks, "b")
 			if rapid.IntRange(0, 3).Draw(t, "minimal") == 0 {
-				c.Input2 = gram.RenderMinimal(toks)
+				c.Input2 = gram.RenderMinimal(g, toks)
 			}
 			report(t, r, checkC10(c, b, r), c)
 		}
@@ -454,7 +454,7 @@ func checkC11(c *gramCase, b *gram.Built, r *vstat.Run) outcome {
 
 func TestC11(t *testing.T) {
 	runProp(t, "C11", c11Rule, func(t *rapid.T, r *vstat.Run) {
-		o := gram.GenOpts{MaxProds: 5, MaxDepth: 4, TrapPercent: 15, PosStyles: true, NameElided: rapid.IntRange(0, 9).Draw(t, "named") == 0}
+		o := gram.GenOpts{MaxProds: 5, MaxDepth: 4, TrapPercent: 15, PosStyles: true, Profiles: true, NameElided: rapid.IntRange(0, 9).Draw(t, "named") == 0}
 		g := gram.GenGrammar(t, o)
 		b, msg := buildGrammar(g)
 		if msg != "" {
@@ -579,7 +579,7 @@ func checkC13(c *gramCase, ps *c13Parsers, r *vstat.Run) outcome {
 
 func TestC13(t *testing.T) {
 	runProp(t, "C13", c13Rule, func(t *rapid.T, r *vstat.Run) {
-		o := gram.GenOpts{MaxProds: 4, MaxDepth: 4, TrapPercent: 30, NoLookNeg: true, PosStyles: true}
+		o := gram.GenOpts{MaxProds: 4, MaxDepth: 4, TrapPercent: 30, NoLookNeg: true, PosStyles: true, Profiles: true}
 		g := gram.GenGrammar(t, o)
 		ps, msg := buildLadder(g)
 		if msg != "" {
